@@ -95,6 +95,14 @@ def eq(a, b):
     return _impl.eq(a, b)
 
 
+def be_uint(bs):
+    return _impl.be_uint(bs)
+
+
+def eq_mod32(a, b):
+    return _impl.eq_mod32(a, b)
+
+
 def conj(xs):
     return _impl.conj(list(xs))
 
